@@ -11,6 +11,7 @@ package simsync
 import (
 	"fmt"
 	"sync"
+	"sync/atomic"
 
 	"verifsim/simrt"
 )
@@ -49,6 +50,20 @@ func (m *RWMutex) Lock() {
 	}
 	site := caller()
 	simrt.Sync("Lock " + site)
+	if simrt.CoRelease() {
+		// race-detector mode: the real mutex provides exclusion and the detector's
+		// happens-before edges; a task never blocks inside it.
+		for !m.real.TryLock() {
+			simrt.ParkCond("Lock "+site, "write lock", func() bool {
+				if m.real.TryLock() {
+					m.real.Unlock()
+					return true
+				}
+				return false
+			})
+		}
+		return
+	}
 	if m.writer != nil || len(m.readers) > 0 {
 		m.pendingW++
 		simrt.ParkCond("Lock "+site, "write lock "+m.name()+m.holders(), func() bool {
@@ -87,6 +102,9 @@ func (m *RWMutex) TryLock() bool {
 		return m.real.TryLock()
 	}
 	simrt.Sync("TryLock " + caller())
+	if simrt.CoRelease() {
+		return m.real.TryLock()
+	}
 	if m.writer != nil || len(m.readers) > 0 {
 		return false
 	}
@@ -99,6 +117,11 @@ func (m *RWMutex) Unlock() {
 	t := simrt.Current()
 	if t == nil {
 		m.real.Unlock()
+		return
+	}
+	if simrt.CoRelease() {
+		m.real.Unlock()
+		simrt.Sync("Unlock " + caller())
 		return
 	}
 	simrt.Sync("Unlock " + caller())
@@ -120,6 +143,18 @@ func (m *RWMutex) RLock() {
 	}
 	site := caller()
 	simrt.Sync("RLock " + site)
+	if simrt.CoRelease() {
+		for !m.real.TryRLock() {
+			simrt.ParkCond("RLock "+site, "read lock", func() bool {
+				if m.real.TryRLock() {
+					m.real.RUnlock()
+					return true
+				}
+				return false
+			})
+		}
+		return
+	}
 	if m.writer != nil || m.pendingW > 0 {
 		simrt.ParkCond("RLock "+site, "read lock "+m.name()+m.holders(), func() bool {
 			return m.writer == nil && m.pendingW == 0
@@ -139,6 +174,9 @@ func (m *RWMutex) TryRLock() bool {
 		return m.real.TryRLock()
 	}
 	simrt.Sync("TryRLock " + caller())
+	if simrt.CoRelease() {
+		return m.real.TryRLock()
+	}
 	if m.writer != nil || m.pendingW > 0 {
 		return false
 	}
@@ -154,6 +192,11 @@ func (m *RWMutex) RUnlock() {
 	t := simrt.Current()
 	if t == nil {
 		m.real.RUnlock()
+		return
+	}
+	if simrt.CoRelease() {
+		m.real.RUnlock()
+		simrt.Sync("RUnlock " + caller())
 		return
 	}
 	simrt.Sync("RUnlock " + caller())
@@ -200,6 +243,7 @@ func (m *Mutex) TryLock() bool { return m.rw.TryLock() }
 type WaitGroup struct {
 	real sync.WaitGroup
 	n    int
+	an   atomic.Int64 // co-release mode
 }
 
 func (w *WaitGroup) Add(d int) {
@@ -208,6 +252,12 @@ func (w *WaitGroup) Add(d int) {
 		return
 	}
 	simrt.Sync("wg.Add " + caller())
+	if simrt.CoRelease() {
+		if w.an.Add(int64(d)) < 0 {
+			panic("sync: negative WaitGroup counter")
+		}
+		return
+	}
 	w.n += d
 	if w.n < 0 {
 		panic("sync: negative WaitGroup counter")
@@ -231,6 +281,12 @@ func (w *WaitGroup) Wait() {
 	}
 	site := caller()
 	simrt.Sync("wg.Wait " + site)
+	if simrt.CoRelease() {
+		for w.an.Load() > 0 {
+			simrt.ParkCond("wg.Wait "+site, "waitgroup", func() bool { return w.an.Load() == 0 })
+		}
+		return
+	}
 	if w.n > 0 {
 		simrt.ParkCond("wg.Wait "+site, "waitgroup", func() bool { return w.n == 0 })
 	}
